@@ -332,26 +332,24 @@ impl Driver {
 
     pub fn cancel(&mut self, key: ErasedKey) {
         instrument!(compio_log::Level::TRACE, "cancel", ?key);
-        #[cfg(compio_verif)]
-        crate::verif::emit(crate::verif::CANCEL_PUSH, key.as_raw() as u64, 1);
         trace!("cancel RawOp");
-        unsafe {
-            #[allow(clippy::useless_conversion)]
-            if self
-                .inner
-                .submission()
-                .push(
-                    &AsyncCancel::new(key.as_raw() as _)
-                        .build()
-                        .user_data(Self::CANCEL)
-                        .into(),
-                )
-                .is_err()
-            {
-                warn!("could not push AsyncCancel entry");
-                #[cfg(compio_verif)]
-                crate::verif::emit(crate::verif::CANCEL_PUSH, key.as_raw() as u64, 0);
-            }
+        // Go through `push_raw` so that a full submission queue is flushed and the
+        // cancel request is never dropped.
+        #[allow(clippy::useless_conversion)]
+        let res = self.push_raw(
+            AsyncCancel::new(key.as_raw() as _)
+                .build()
+                .user_data(Self::CANCEL)
+                .into(),
+        );
+        #[cfg(compio_verif)]
+        crate::verif::emit(
+            crate::verif::CANCEL_PUSH,
+            key.as_raw() as u64,
+            res.is_ok() as i64,
+        );
+        if let Err(e) = res {
+            warn!("could not push AsyncCancel entry: {e:?}");
         }
     }
 
